@@ -238,18 +238,20 @@ def set_ends_with_comment(text):
 # =================================================================================== C19
 def run_C19():
     for it in range(N):
-        text, meta = gen_doc(R, scoped=True, maxlayers=2)
+        text, meta = gen_doc(R, scoped=True, maxlayers=2, layer_refs=0.5)
         if parse(text).rebuild() != text: continue       # canonical documents only
         paths = [p for p in existing_paths(text)]
         tree0, _ = read_tree(text)
-        leafs = [p for p in tree0 if not any(s.startswith('<inherit') for s in p)]
+        leafs = [p for p in tree0 if not any(s.startswith('<inherit') for s in p) and p[-1] not in meta['refs']]        # reference-valued bindings: law 1 only
         law = R.choice(['twice', 'set_rm', 'rm_set', 'commute', 'scoped_set_rm'])
         reparse = R.random() < 0.5           # as the CLI does: the second command starts from the text the first one printed
         def nxt(a, r): return parse(r[1]) if (reparse and r[0] == 'ok') else a
         count(law + '/' + meta['shape'] + ('/reparse' if reparse else '/same-object'))
         try:
             if law == 'twice' and paths:
-                p = pstr(R.choice(paths + [('fresh',)])); v = R.choice(VALUES)
+                p = pstr(R.choice(paths + [('fresh',)])); v = R.choice(VALUES + ['/* pinned */ "2.0"', '# why\n7', '"v" # eol'])
+                if meta['refs'] and R.random() < 0.6: p = R.choice(meta['refs'])         # through a reference into a let layer
+                if v.endswith('# eol'): known['F-43'] = known.get('F-43', 0) + 1; continue      # listed: a VALUE with a trailing line comment next to the binding's own end-of-line comment
                 a = parse(text); r1 = apply(a, ('set', p, v)); r2 = apply(nxt(a, r1), ('set', p, v))
                 if r1[0] == 'ok' and r1 != r2: bad('the same set applied twice differs from once', doc=text, ops=[['set', p, v]] * 2, once=r1[1], twice=r2[1] if r2[0] == 'ok' else r2)
             elif law == 'set_rm':
